@@ -415,6 +415,12 @@ def model_runs(prop, tier):
     if tier != 'quick':
         std = model_cfg('StSpec', 'Fixpoint', 1 if f else 2, f, 'All', live=True).replace('KOpts <- Opts', 'KOpts <- OptsStd').replace('Sizes <- SizeSet', 'Sizes <- SizeStd')
         runs.append(('fixpoint-std', std, 'MCStable'))
+    # "within a bounded number of cycles": from every reachable state, 4 quiet rounds (probes due, one cycle, three scrape rounds
+    # per shard) end in the converged state (BoundKvass.tla; 3 rounds are not enough: measured)
+    fb = f if tier != 'quick' else 0
+    bound = model_cfg('BSpec', '', 1, fb, 'All', live=True).replace('PROPERTIES \n', '').replace('INVARIANT TypeK', 'INVARIANT TypeK ConvergedInTime').replace(
+        'InputSet = {}', 'InputSet = {}\n  Bound = 4')
+    runs.append(('bound', bound, 'MCBound'))
     return runs
 
 
